@@ -468,6 +468,17 @@ func (k Keeper) ParsePricing(ctx sdk.Context, pricing string) (p types.Pricing, 
 		p.Price = sdk.NewCoins(priceCoin)
 	}
 
+	// the promotion times are stored as protobuf timestamps, which do not cover every time the JSON form can express
+	for _, promotion := range rawPricing.PromotionsByTime {
+		if _, err := gogotypes.TimestampProto(promotion.StartTime); err != nil {
+			return p, sdkerrors.Wrapf(types.ErrInvalidPricing, "invalid promotion start time: %s", err.Error())
+		}
+
+		if _, err := gogotypes.TimestampProto(promotion.EndTime); err != nil {
+			return p, sdkerrors.Wrapf(types.ErrInvalidPricing, "invalid promotion end time: %s", err.Error())
+		}
+	}
+
 	p.PromotionsByTime = rawPricing.PromotionsByTime
 	p.PromotionsByVolume = rawPricing.PromotionsByVolume
 
